@@ -12,6 +12,8 @@ def J(workload, cls, count, per_process=8, bench=False, **params):
 # Situations that make a run non-trivial for a property (any one of them suffices); a property
 # with an empty list counts every run that evaluated its oracle at least once.
 NONTRIVIAL = {
+    "C01": ["C01:byzantine_actions_view_change_and_commits"],
+    "C13": ["C13:on_demand_batch_fetch", "C13:fault_free_end_to_end"],
     "C11": ["C11:sealed_by_size", "C11:sealed_by_timer"],
     "C12": ["C12:release_with_silent_peer", "C12:released_exactly_at_threshold"],
     "C16": ["C16:concurrent_writers_and_early_waiter"],
@@ -110,7 +112,7 @@ PLANS.update({
         "rule": "honestly generated key pairs: sign/verify, other digest / other key / every single-bit flip of the signature must fail, verify_batch (sizes 0..40, corrupted member at every position, three corruption kinds) must agree with individual verification; keys through base64, bincode, JSON and the node's key and committee files (node/src/config.rs Export); a case class is (clause, batch size, position / byte)",
         "assumptions": ["keys are honestly generated (no small-order points)"],
         "quick": [J("c18", "sig", 16, per_process=1, keys=24), J("c18", "enc", 16, per_process=1)],
-        "thorough": [J("c18", "sig", 256, per_process=2, keys=60), J("c18", "enc", 64, per_process=2, keys=400, committees=60)],
+        "thorough": [J("c18", "sig", 256, per_process=2, keys=60), J("c18", "enc", 64, per_process=2, keys=400, committees=60), J("miri", "sign", 3, per_process=1)],
     },
     "C20": {
         "level": "exploration",
@@ -132,6 +134,27 @@ PLANS.update({
         "assumptions": ["votes reaching the aggregator were verified by Core (stake > 0, signature)"],
         "quick": [J("c19", "x", 32, per_process=2)] + [J("puppet", "d15", 160, per_process=8), J("puppet", "rand", 320, per_process=10)] + cluster_mix(32),
         "thorough": [J("c19", "x", 1024, per_process=8, streams=100)] + [J("puppet", "d15", 8000, per_process=20), J("puppet", "rand", 20000, per_process=20)] + cluster_mix(1000),
+    },
+    "C01": {
+        "level": "exploration",
+        "rule": "cluster runs with up to f stake Byzantine (classes s5 equivocator / s6 withholding leader / s7 stale-QC proposer / s8 replay storm): one omniscient adversary holding the Byzantine keys votes for every block it sees (double votes), broadcasts timeouts with the genesis QC for every round any node timed out in, assembles QCs/TCs from the honest votes/timeouts it can see, proposes two different blocks per led round to disjoint groups with late cross delivery, withholds proposals, proposes on the stalest QC its hand-picked TC allows (or an older one), replays tapped frames, while honest nodes are periodically split into two groups with slow cross traffic; plus honest-only crash / asynchrony / partition runs; oracle: all blocks committed by all honest nodes lie on one chain; non-trivial = a run with Byzantine actions other than plain proposals, at least one view change and >= 2 commits; distinct = distinct Core-event fingerprints",
+        "assumptions": ["Byzantine stake <= f", "the local monitors (C03 C05 C09 C10 C19) run on every honest node of every run and are the early warning for breaks that only long, precisely timed attacks turn into forks (DESIGN.md Appendix D)"],
+        "quick": [J("byz", c, 40, per_process=3) for c in ("s5", "s6", "s7", "s8")] + cluster_mix(24),
+        "thorough": [J("byz", c, 2500, per_process=10) for c in ("s5", "s6", "s7", "s8")] + cluster_mix(1000),
+    },
+    "C13": {
+        "level": "exploration",
+        "rule": "4..7 real full nodes (Node::new from JSON key / committee / parameter files, mempool and consensus on one store) with clients writing unique transactions (single node, all nodes, bursts, trickles, empty and duplicated transactions) to the transaction ports; class s1: no fault and no view change (otherwise inconclusive): every transaction is in a batch referenced by a block every node commits and every committed batch is readable, byte-exact, from every node's re-opened store; class s10: the mempool link from a batch creator to a victim node is blocked for the whole run: the victim must fetch the batches on demand (BatchRequest to the proposer, retry to other peers when the proposer is the blocked creator) and keep up with the others; non-trivial = a run with >= 1 on-demand batch fetch by the victim, or a fault-free run that traced every transaction end to end",
+        "assumptions": ["delays <= 40 ms (timeout 2 s)", "settling time 20 s / 40 s of virtual time"],
+        "quick": [J("e2e", "s1", 48, per_process=3), J("e2e", "s10", 48, per_process=3)],
+        "thorough": [J("e2e", "s1", 1500, per_process=8), J("e2e", "s10", 1500, per_process=8)],
+    },
+    "C15": {
+        "level": "exploration",
+        "rule": "a real full node with puppet peers receives bursts of hostile frames on its consensus, mempool and transaction ports (random bytes; bit-flipped / truncated / extended / spliced valid frames of every message kind; every enum tag; length fields set to 0, 1, 2^32-1, 2^64-1; key strings of every length 0..100; well-formed absurd content: rounds 0 and u64::MAX, empty and 50 000-entry certificates, 100 000-digest payloads and batch requests, sync requests for unknown / batch digests and from strangers, batch requests for block digests, each message kind on each other port; unframed headers announcing up to 4 GiB; transactions of 0 B .. 1 MB), in both feature builds; after every burst four functional probes (valid proposal voted, sync request answered, batch request answered, client transactions batched and broadcast) and a process-wide panic hook decide; class bigtx: one transaction just below the 8 MiB frame limit, then the probes; thorough adds the Miri interpreter on the crypto crate's decoders; a case class is (port, hostile class, message kind)",
+        "assumptions": ["hostile content is never validly certified (it cannot legitimately move the node's round)"],
+        "quick": [J("hostile", "mixed", 64, per_process=2, bursts=6), J("hostile", "mixed", 32, per_process=2, bench=True, bursts=6), J("hostile", "bigtx", 2, per_process=1, bursts=1)],
+        "thorough": [J("hostile", "mixed", 2000, per_process=6, bursts=10), J("hostile", "mixed", 1000, per_process=6, bench=True, bursts=10), J("hostile", "bigtx", 4, per_process=1, bursts=1), J("miri", "decode", 4, per_process=1)],
     },
     "C11": {
         "level": "exploration",
@@ -182,6 +205,9 @@ def nontrivial(pid, res, sits):
 
 # Coverage floors: (counter or situation, minimum) that the unchanged tree meets deterministically.
 FLOORS = {
+    "C01": {"quick": {"C01.distinct_committed_blocks": 10000, "C01.adv.equivocation": 500, "C01.adv.withholding_proposal": 300, "C01.fork_points": 500, "sit:C01:byzantine_actions_view_change_and_commits": 50}},
+    "C13": {"quick": {"C13.transactions_traced": 1500, "C13.committed_batches_read_back": 3000, "sit:C13:on_demand_batch_fetch": 20, "sit:C13:fault_free_end_to_end": 20}},
+    "C15": {"quick": {"C15.hostile_frames": 3000, "C15.probe_vote": 300, "C15.probe_sync": 300, "C15.probe_batch_request": 300, "C15.probe_batching": 300}},
     "C11": {"quick": {"C11.transactions_conserved_in_order": 10000, "C11.sealed_by_size": 1000, "C11.sealed_by_timer": 500, "C11.received_batches_checked": 100}},
     "C12": {"quick": {"C12.releases_checked": 2000, "sit:C12:release_with_silent_peer": 10, "sit:C12:released_exactly_at_threshold": 10}},
     "C14": {"quick": {"C14.fault_points_enumerated": 300, "C14.retransmissions_received": 500, "C14.drops_while_disconnected_checked": 20, "C14.resolutions_checked": 5000}},
@@ -263,6 +289,15 @@ META.update({
     "C10": M("puppet + cluster", "offline pacemaker monitor over round-advance and timeout events vs. certificates held",
              "Rounds strictly increase and chain; each entry into round r+1 is preceded by a valid QC or TC of round r delivered to or assembled by the node; each timeout's high-QC is at least the QC of any block voted and any QC sent before. Runs include jumps over many rounds, TC-only advances, certificates that arrive only inside timeouts or blocks.",
              "A certificate counts as held from the moment its frame became readable by the node (permissive)."),
+    "C01": M("cluster", "global ancestor-chain monitor over the commit logs of all honest nodes under a Byzantine + scheduler adversary",
+             "Held on the executions produced: thousands of commits per check across honest nodes, in runs with equivocating, withholding, stale-QC and replaying Byzantine leaders holding up to f stake, double votes, adversarial timeouts and honest-group splits, all lying on one chain. Random play reaches forks when certificate validation, quorum arithmetic, the commit rule or leader / signature checks are broken; breaks of the voting and pacemaker rules are caught by the local monitors that run in the same executions (see DESIGN.md 7.3 for which seeded change is caught by which check).",
+             "Sampling of schedules and Byzantine strategies; n <= 7; the scripted playbooks of Appendix D are not implemented (DESIGN.md 9)."),
+    "C13": M("cluster", "end-to-end trace monitor (client transaction -> batch -> committed block -> re-opened store) on real full nodes; on-demand fetch scenario",
+             "Held on the runs produced, with the premises checked per run (a view change in a fault-free run makes it inconclusive).",
+             "Virtual time, delays <= 40 ms; one blocked mempool link per faulty run."),
+    "C15": M("puppet", "process-wide panic hook plus functional probes after hostile bursts on all three ports, both builds; Miri on the decoders (thorough)",
+             "No panic anywhere in the process and all four services still functional after every burst, on the inputs generated. One known finding (a transaction just below the frame limit wedges batch dissemination) is reported as KNOWN-FINDING.",
+             "Sampled inputs; frames up to ~6 MB (the 8 MiB codec limit closes the connection for larger ones)."),
     "C11": M("component", "conservation / order / timing / content-addressing oracle over client-side, wire-side and store-side observations of a real mempool, in both feature builds",
              "Held on the generated loads in both builds: what the client's connection delivered equals the concatenation of the sealed batches, each batch is sealed on crossing the size threshold or within max_batch_delay of its first transaction, and every digest handed to consensus is the hash of the exact bytes in the store.",
              "Virtual time; one client connection; sizes up to a few batch sizes (40 kB)."),
